@@ -12,6 +12,10 @@ CONSTANTS
   AtomicNew = TRUE
   AtomicLine = FALSE
   ObjCid = TRUE
+  Bufs = {}
+  Cap = 0
+  Wins = {}
+  OwnStorage = TRUE
   Sink <- KeepAll
 INVARIANTS WholeLines
 CHECK_DEADLOCK FALSE
